@@ -879,6 +879,9 @@ func vC11Run(c *vh.Case, sc vC11Scenario, bubble bool) {
 		c.Logf("%s", l)
 	}
 	// non-trivial: concurrency on one peer or a failed exchange followed by further traffic
+	if sc.Forced != nil {
+		sigParts = append(sigParts, fmt.Sprintf("%+v", *sc.Forced))
+	}
 	if nOK > 0 && (failedExchanges > 0 || nDisc > 0 || sc.Forced != nil) && sc.Callers >= 2 {
 		h := sha256.Sum256([]byte(strings.Join(sigParts, ";")))
 		c.Nontrivial(fmt.Sprintf("%x", h[:8]))
@@ -1038,7 +1041,7 @@ func vC11WriteNames(ws []*vC11Write) string {
 var vC11Clauses = []string{"own-reply", "reply-from-carrying-transmission", "exchanges-serialized", "one-open-stream", "failed-exchange-resets-stream", "no-write-after-reset"}
 
 func TestVerif_C11_bubble(t *testing.T) {
-	vh.Run(t, vh.Spec{Prop: "C11", Unit: "bubble", Quick: 1200, Thorough: 60000, CostMs: 12, WallS: 60,
+	vh.Run(t, vh.Spec{Prop: "C11", Unit: "bubble", Quick: 3000, Thorough: 150000, CostMs: 4, WallS: 60,
 		Rule: "virtual time, real 10 s read timeout: 1-8 callers x 1-3 peers x 1-5 calls each (SendRequest of 5 types, 20% SendMessage/ADD_PROVIDER), think times 0-3 s; per-peer remote script over the requests it reads (fault share 0/20/50%): prompt, delayed 1-9 s, delayed 10 s +/- 1 ms (boundary), delayed 11-25 s, silent, reset after reading, close, non-protobuf frame, over-long length prefix, truncated frame (+ silence or EOF); per-stream script: refused, slowly refused, slow, reset on open; contexts: none / pre-cancelled / deadline in {1 ms, 5 s, 10 s -/+ 1 ms, 15 s, 20 s} / cancelled at {0, 3.3 s, 10 s, 10 s + 1 ms, 20 s + 1 ms, PRNG}; boundary hooks cancel the caller or call OnDisconnect when the remote has read the request / written the reply; OnDisconnect timers; oracle on ids + frame serials + logging stream; non-trivial = >= 2 callers, >= 1 successful request and (>= 1 stream reset by the sender or >= 1 OnDisconnect); distinct by (per-call transmissions and outcome, per-stream writes/frames)",
 		Clauses: append([]string{"late-reply-not-returned"}, vC11Clauses...)},
 		func(c *vh.Case) {
@@ -1053,7 +1056,7 @@ func TestVerifRace_C11_twin(t *testing.T) {
 	old := dhtReadMessageTimeout
 	dhtReadMessageTimeout = 60 * time.Millisecond
 	defer func() { dhtReadMessageTimeout = old }()
-	vh.Run(t, vh.Spec{Prop: "C11", Unit: "twin", Quick: 160, Thorough: 8000, CostMs: 60, WallS: 120,
+	vh.Run(t, vh.Spec{Prop: "C11", Unit: "twin", Quick: 400, Thorough: 16000, CostMs: 60, WallS: 120,
 		Rule: "real time, -race build, read timeout shrunk to 60 ms: same scenario generator as `bubble` with the time unit scaled (delays below = 6-54 ms, above = 180-240 ms, at most 3 timeout-class reactions per peer); no stream is broken by the harness, so a stream reused after a failed exchange delivers its late frame to the next exchange; verdict uses only ids, frame serials and the order of logged events, never durations; non-trivial as `bubble`",
 		Clauses: vC11Clauses},
 		func(c *vh.Case) {
